@@ -524,11 +524,13 @@ def check(repo, run, tier):
     g(unitrules.none_scalar_table, repo, run, 'C01.R8')
     g(unitrules.unchecked_path_prefixes, repo, run, 'C01.R9')
     g(unitrules.list_path_table, repo, run, 'C01.R9')
+    g(unitrules.decode_metadata_table, repo, run, 'C01.R2')
     g.done()
 
 
 def mutants(repo):
     return [
+        Mutant('metadata-fields-not-extracted', lambda r: in_func(r, 'yaml._decode_metadata', "        if special in metadata:", "        if special not in metadata:"), ['C01.R2']),
         Mutant('typed-evaluation-paths', lambda r: in_func(r, 'EvalContext.evaluate_node', "NodePath.get_list_path(prefix, check_types=False)", "NodePath.get_list_path(prefix)"), ['C01.R9']),
         Mutant('null-is-true', lambda r: in_func(r, 'ConfigNone.__bool__', "return False", "return True"), ['C01.R8']),
         Mutant('F19-reverted-full-list-refill', lambda r: in_func(r, 'AwesomeyamlLoader.construct_object', "lambda v: aynode.extend(v[len(aynode):])", "aynode.extend"), ['C01.R1d']),
